@@ -161,7 +161,9 @@ ArgVal(def, xs) ==
 (* the scope an arm's body is evaluated in: the parameters of a two-argument function (inp, inq), or the outer       *)
 (* variable inq = 7 of the session for one-argument definitions and match expressions, then the arm's own pattern     *)
 (* bindings (EVERY arm starts from the same outer scope: nothing bound by an arm that was tried before is visible)    *)
-ParamEnv(def, val) == IF def.nargs = 2 THEN <<[v |-> "inp", val |-> NV(val.e[1])], [v |-> "inq", val |-> NV(val.e[2])]>>
+ParamEnv(def, val) == IF "params" \in DOMAIN def /\ Len(def.params) > 0      \* a definition with declared input names: bound to the CURRENT arguments
+                      THEN [i \in 1..Len(def.params) |-> [v |-> def.params[i], val |-> NV(val.e[i])]]
+                      ELSE IF def.nargs = 2 THEN <<[v |-> "inp", val |-> NV(val.e[1])], [v |-> "inq", val |-> NV(val.e[2])]>>
                       ELSE <<[v |-> "inq", val |-> NV(7)]>>
 ArmEnv(def, i, val) == ParamEnv(def, val) \o Binds(def.arms[i].pat, val)
 
@@ -269,6 +271,17 @@ GcdDef  == [nargs |-> 2, arms |-> <<Arm(PTup(<<SVar("a"), SLit(0)>>), GNone, EVa
 CountDef == [nargs |-> 2, arms |-> <<Arm(PTup(<<SLit(0), SVar("acc")>>), GNone, EVar("acc")),
                                      Arm(PTup(<<SVar("n"), SVar("acc")>>), GNone,
                                          ECall(<<EBin("sub", EVar("n"), ELit(1)), EBin("add", EVar("acc"), ELit(1))>>))>>]
+(* tail recursions whose arms READ THE DECLARED INPUT NAMES (the patterns bind nothing): every iteration must see the  *)
+(* arguments of the current call, not those of the first one                                                            *)
+CountUpDef == [nargs |-> 2, params |-> <<"n", "acc">>,
+               arms |-> <<Arm(PTup(<<SLit(0), SWild>>), GNone, EVar("acc")),
+                          Arm(PTup(<<SWild, SWild>>), GNone, ECall(<<EBin("sub", EVar("n"), ELit(1)), EBin("add", EVar("acc"), ELit(1))>>))>>]
+GcdPDef == [nargs |-> 2, params |-> <<"a", "b">>,
+            arms |-> <<Arm(PTup(<<SWild, SLit(0)>>), GNone, EVar("a")),
+                       Arm(PTup(<<SWild, SWild>>), GNone, ECall(<<EVar("b"), EBin("mod", EVar("a"), EVar("b"))>>))>>]
+PowAccDef == [nargs |-> 3, params |-> <<"x", "y", "acc">>,
+              arms |-> <<Arm(PTup(<<SWild, SLit(0), SWild>>), GNone, EVar("acc")),
+                         Arm(PTup(<<SWild, SWild, SWild>>), GNone, ECall(<<EVar("x"), EBin("sub", EVar("y"), ELit(1)), EBin("mul", EVar("acc"), EVar("x"))>>))>>]
 (* fib-acc(n, a, b): tail recursive fibonacci *)
 FibAccDef == [nargs |-> 3, arms |-> <<Arm(PTup(<<SLit(0), SVar("a"), SWild>>), GNone, EVar("a")),
                                       Arm(PTup(<<SVar("n"), SVar("a"), SVar("b")>>), GNone,
